@@ -601,9 +601,19 @@ def run_series(ctx: Ctx, recipe: Dict[str, Any], cid: str) -> Case:
                     tags.add("state:" + op[1:].split(":")[0])
                 continue
             t, raws = int(op[0]), list(op[1])
+            lat = dict(zip(COUNTER_ACTIONS, (list(op[2]) if len(op) > 2 else []) + [0] * 6))
             clock["t"] = t
             script = dict(zip(COUNTER_ACTIONS, raws))
-            req.responder = lambda svc, action, script=script: raw_response(svc, action, script[action])
+
+            def slow(svc, action, script=script, lat=lat):
+                # a slow gateway: the (patched) clock moves on while the reading is under way, also when it fails.
+                # The sample's timestamp is the one the poll started with (reported in IgdState, checked by the driver);
+                # rates are judged against the reported timestamps of consecutive states.
+                clock["t"] += lat[action]
+                return raw_response(svc, action, script[action])
+            req.responder = slow
+            if any(lat.values()):
+                tags.add("latency:some")
             lines.append(f"sample {t} {' '.join(raws)}")
             for r in raws:
                 tags.add("raw:" + (r if not r.startswith("ok") else ("ok-neg" if r.startswith("ok:-") else "ok")))
@@ -671,14 +681,18 @@ def gen_series(rng: random.Random, n: int) -> List[Any]:
     t = 0
     ops = []
     allfail = rng.randrange(0, 12) == 0
+    spent = 0
     for k in range(n):
-        t += rng.choice([1, 999, 1000, 10**6, 30 * 10**6, rng.randrange(1, 10**9), 86400 * 10**6 + 1])
+        t += spent + rng.choice([1, 999, 1000, 10**6, 30 * 10**6, rng.randrange(1, 10**9), 86400 * 10**6 + 1])
+        # per-reading latency of the gateway (microseconds): none, small, large, different per counter
+        lat = [rng.choice([0, 0, 1, 250, 40000, 3 * 10**6, 45 * 10**6]) for _ in range(6)] if rng.randrange(3) else [0] * 6
+        spent = sum(lat)
         raws = [gen_reading(rng, cur, i) for i in range(4)]
         raws.append(rng.choice(["ok:0", "ok:0", "ok:0", "absent", "fail:1", "fail:2"]))
         raws.append(rng.choice(["ok:0", "ok:0", "ok:0", "absent", "fail:1", "fail:2"]))
         if allfail and k == n // 2:
             raws = [f"fail:{rng.choice([1, 2, 3, 4])}" for _ in range(6)]
-        ops.append([t, raws])
+        ops.append([t, raws, lat])
     return ops
 
 
@@ -717,6 +731,11 @@ SERIES_CFGS = [
 ]
 
 CORPUS = [
+    # slow gateway: the clock moves during the poll; elapsed time is between the reported (poll start) timestamps
+    {"kind": "series", "types": [T_IP1, T_CIC], "placement": "standard", "variant": "std", "t0": 0,
+     "ops": [[1000000, ["ok:1000", "ok:2000", "ok:30", "ok:40", "ok:0", "ok:0"], [500000, 0, 2000000, 0, 0, 1000000]],
+             [11000000, ["ok:11240", "ok:2000", "ok:130", "ok:40", "fail:1", "ok:0"], [0, 3000000, 0, 0, 250, 0]],
+             [21000000, ["ok:21480", "ok:4048", "ok:230", "ok:45", "ok:0", "ok:0"]]]},
     # the first offered service of the alias list lacks the action, the next alias's service defines it (and vice versa)
     {"kind": "routing", "types": [T_IP1, T_PPP], "placement": "standard", "variant": "std",
      "omit": {T_IP1: ["GetNATRSIPStatus", "GetGenericPortMappingEntry"]},
